@@ -24,6 +24,19 @@ def _guard(test, size_attrs):
     return None
 
 
+def _seen_through(arch, f, test, branch, size_attrs):
+    """Names V for which `test` evaluating to `branch` implies `V.<size attr> <= limit`: the guard up to negation / De Morgan /
+    flipped comparison / single-assignment local alias / a local predicate helper (`f(.., V.size)` whose body decides
+    `size > limit`), read by contracts/guardlib.py."""
+    from contracts import guardlib
+    out = []
+    for x in guardlib.upper_bounded(guardlib.implied(test, branch, arch, f), LIMITS):
+        e = ast.parse(x, mode="eval").body
+        if isinstance(e, ast.Attribute) and e.attr in size_attrs and isinstance(e.value, ast.Name):
+            out.append(e.value.id)
+    return out
+
+
 def member_size_guard(prop, repo, fn_name, readers, size_attrs, label="member-size-check-dominates-read"):
     arch = loader.module(ARCH, repo)
     oid = f"{prop}/archive_extractor.py::{fn_name}/typestate#{label}"
@@ -40,6 +53,8 @@ def member_size_guard(prop, repo, fn_name, readers, size_attrs, label="member-si
 
     def gen_cond(test, branch):
         v = _guard(test, size_attrs)
+        if v is None:
+            return [("within-limit", w) for w in _seen_through(arch, f, test, branch, size_attrs)]
         return [("within-limit", v)] if v is not None and branch is False else []
 
     mf = MustFacts(gen_cond=gen_cond, need=lambda n: [(("within-limit", n.args[0].id), f"line {n.lineno}")] if any(n is r for r in reads) else [],
